@@ -13,6 +13,41 @@ CLAIMED = {
             "trusted: Coq kernel, vm_compute; np.searchsorted/np.sort contracts modelled as count/sorted permutation; "
             "translator whitelist; harness printers. NaN scores excluded.",
             "Coq proof (induction over lists) + ast-regenerated tie lemma + vm_compute correspondence"),
+    "C13": ("7/C13, Appendix A.7",
+            "Coq theorems (Props/C13.v, all inputs, no size bound) about an executable model of utils.bootstrap_ci and of "
+            "np.nanquantile: agreement with the documented quantile / BC / BCa formulas (unconditional, incl. the p0 in {0,1} "
+            "and pole branches); empirical quantile monotone in the level, within [min,max] of the finite replicates, invariant "
+            "under permutation and NaN insertion, affine equivariant; hence limits ordered, in range, NaN/permutation invariant, "
+            "affine equivariant, nested in alpha (bca under the property's side condition), per-component, shape "
+            "metric_shape+alpha_shape+(2,) with the moveaxis/reshape element placement. Two clauses are REFUTED for the faithful "
+            "model and recorded as known findings: an all-NaN component makes bc/bca raise for the whole array "
+            "(C13_component_independent_refuted), integer-typed replicates make bca raise (C13_int_bca_refuted).",
+            "proved: all theorems listed in Props/C13.v, closed under the global context. Assumed (Section hypotheses, visible in "
+            "each statement): scipy norm.cdf in [0,1] and monotone, norm.ppf monotone on (0,1), both and x**1.5 respect ==, "
+            "homogeneity of x**1.5 (affine clause only). Correspondence only (vm_compute vs implementation, every run): that "
+            "np.nanquantile/np.moveaxis/np.reshape/nansum behave as modelled, with the implementation's own norm.ppf/cdf "
+            "arguments and results recorded and substituted (arguments within 1e-9, limits within 1e-9 of the replicate scale; "
+            "bit-exact for the quantile method on dyadic inputs). Float rounding is outside the model. No translator tie "
+            "(the function is array code, not flag logic).",
+            "Coq proof (induction over lists; order statistics via counting) + vm_compute correspondence with recorded SciPy "
+            "oracle values + independent Python oracle (exact Fractions + SciPy) incl. metamorphic re-runs"),
+    "C14": ("7/C14",
+            "Coq theorems (Props/C14.v) about a model of Scores.bootstrap_metric / bootstrap_ci / the custom-sampler dispatch that "
+            "is parametric in objects, kwargs, metric values, names, built-in samplers and draw histories: one row per sample, "
+            "row j = metric (resolved along the object's own class chain, caller's kwargs) of the j-th sample; custom callable "
+            "dispatch; bootstrap_ci = CI routine(theta=rows, theta_hat=metric(self), alpha, method=config.bootstrap_method); identity "
+            "sampler => interval = point estimate for quantile/bc/bca (through the C13 model, p0 = 1, z0 = +inf branch); results are "
+            "functions of the draw history. The two Python functions and the tail of bootstrap_sample are re-translated from the "
+            "current source on every run and proved equal to the model (3 tie lemmas, all inputs). Refuted + known finding: "
+            "integer-valued metric with bca raises (C14_int_metric_bca_refuted).",
+            "proved: Props/C14.v closed under the global context; tie lemmas tie_bootstrap_metric, tie_bootstrap_ci, "
+            "tie_sample_tail re-proved per run. Assumed/abstract: the built-in samplers (C11) and NumPy's global RNG (modelled as "
+            "a draw history: same seed + same call sequence = same history; checked by seeded re-runs, not proved), metrics are "
+            "deterministic functions, Python attribute lookup = class-chain lookup, the translator whitelist. Correspondence: "
+            "model rows vs implementation for the plain rates under a counting sampler; C13 correspondence on the actual rows "
+            "handed to utils.bootstrap_ci.",
+            "Coq proof + ast-regenerated definitions with tie lemmas + vm_compute correspondence + Python oracle with pass-through "
+            "recording of samples, utils.bootstrap_ci arguments and norm.ppf/cdf"),
 }
 PENDING = {}
 
